@@ -1,6 +1,7 @@
 /* C11 (bounded shapes): the real fstree_post_process / alloc_inode_num_dfs /
  * map_inodes_dfs / file_list_dfs (lib/fstree/src/post_process.c) on concrete
- * tree shapes of up to 7 nodes (SHAPE), every attribute symbolic, node
+ * tree shapes of up to 7 nodes (SHAPE), ids / times / names / stale inode
+ * numbers symbolic (type and permission bits concrete, see below), node
  * objects deliberately NOT laid out in tree order (the table below maps tree
  * positions to objects in a scrambled way, so an ordering that peeked at
  * addresses or at stale inode numbers would show).
@@ -75,10 +76,12 @@ void *calloc(size_t n, size_t sz)
 	/* post_process passes (element size, count) */
 	VERIF_ASSERT(n == sizeof(tree_node_t *) && sz == NN && !g_table_live,
 		     "C11.env.calloc_pre");
-	if (verif_nd_bool("calloc_fail")) {
-		g_calloc_failed = true;
-		return NULL;
-	}
+	/* failure is a concrete case (-DCALLOC_FAILS): a nondeterministic
+	 * NULL makes fs->inodes an if-then-else pointer */
+#ifdef CALLOC_FAILS
+	g_calloc_failed = true;
+	return NULL;
+#endif
 	for (i = 0; i < NN; ++i)
 		g_table[i] = NULL;
 	g_table_live = true;
@@ -137,19 +140,32 @@ void harness(void)
 	int p, q, ret;
 	unsigned i;
 
-	for (p = 0; p < NN; ++p)
-		fnode_init(obj[p], kind[p]);
+	/* What the walk branches on must be syntactically concrete for symex
+	 * (DESIGN 2.4 "shape concrete"): the type bits AND the permission bits
+	 * of the mode (cbmc does not fold S_ISDIR over symbolic low bits), the
+	 * child pointers (the union is assigned as a whole - a member-wise
+	 * write leaves an unsimplified byte_update and the recursion explodes;
+	 * found by the C03 harness), the stale next_by_type links. Everything
+	 * else stays symbolic. */
 	for (p = 0; p < NN; ++p) {
-		tree_node_t **tail = kind[p] == D ? &P(p)->data.children : NULL;
+		fnode_init(obj[p], kind[p]);
+		P(p)->mode = kind[p] | 0644;
+		P(p)->data = (__typeof__(P(p)->data)){ .children = NULL };
+	}
+	for (p = 0; p < NN; ++p) {
+		tree_node_t *last = NULL;
 
 		P(p)->parent = par[p] >= 0 ? P(par[p]) : NULL;
 		/* stale links from an earlier use must not matter */
-		P(p)->next_by_type = verif_nd_bool("stale") ? P(0) : NULL;
-		for (q = p + 1; q < NN && tail != NULL; ++q) {
-			if (par[q] == p) {
-				*tail = P(q);
-				tail = &P(q)->next;
-			}
+		P(p)->next_by_type = (p % 2) ? P(0) : NULL;
+		for (q = p + 1; q < NN && kind[p] == D; ++q) {
+			if (par[q] != p)
+				continue;
+			if (last == NULL)
+				P(p)->data = (__typeof__(P(p)->data)){ .children = P(q) };
+			else
+				last->next = P(q);
+			last = P(q);
 		}
 	}
 	fs.root = P(0);
@@ -163,8 +179,11 @@ void harness(void)
 
 	ret = fstree_post_process(&fs);
 
-	VERIF_COVER(ret == 0);
+#ifdef CALLOC_FAILS
 	VERIF_COVER(ret != 0);
+#else
+	VERIF_COVER(ret == 0);
+#endif
 	if (ret != 0) {
 		VERIF_ASSERT(g_calloc_failed && g_msgs > 0, "C11.post.fail_only_oom");
 		return;
